@@ -135,8 +135,9 @@ CHECKS = {
              "(civil_from_days z) = z for every day and the HTTP date round "
              "trip for every second 1970..9999; negotiation list round trip "
              "and totality; the add_header -> parse_header parameter round "
-             "trip for all values except a non-last value ending in a "
-             "backslash (refuted by witness = known finding), the unescape/"
+             "trip for ALL parameter values (backslashes, quotes, ';', CR, LF, "
+             "any code point; empty values read back as no entry; main value "
+             "and keys within what the writer can represent), the unescape/"
              "escape inversion and totality of parse_header. Correspondence "
              "with the real functions incl. malformed streams; independent "
              "writers/readers (own RFC 9110 range writer, email.utils) in "
@@ -144,7 +145,8 @@ CHECKS = {
         design="7/C18",
         note="strftime/strptime (C locale) trusted; float(str(q)) = q "
              "assumed; \\d/int() and str.lower modelled for ASCII / latin-1; "
-             "known finding param-backslash-before-next-param.",
+             "the former finding param-backslash-before-next-param is fixed "
+             "in /repo (697ccfd) and now inside the round-trip theorem.",
         technique="Coq proof (lia over civil-date arithmetic, decimal "
                   "lemmas, list induction) + vm_compute correspondence"),
     "C19": dict(
@@ -207,8 +209,10 @@ CHECKS = {
              "condition; parse(encode(parts)) returns the parts in order "
              "with names, filenames, media types and byte-exact contents for "
              "every good reader, with/without final CRLF and Content-Length "
-             "(_partial: header codec round trip is a decidable hypothesis, "
-             "refuted for a name ending in a backslash); two good readers "
+             "(header decoding proved for every name/filename without CR/LF "
+             "and lone surrogates, incl. trailing backslashes; _partial: "
+             "nested/urlencoded parts, media types with parameters, text "
+             "compared bytewise); two good readers "
              "agree; ASCII text exact under any cut. Correspondence: real "
              "parser on random RFC 7578 bodies through BytesIO and the real "
              "CachedInput at every block size; monitor decode(encode(parts)) "
@@ -217,8 +221,7 @@ CHECKS = {
         note="email.feedparser, tempfile, io and codecs trusted; nested "
              "multipart / urlencoded parts unmodelled (reported as such); "
              "text values compared bytewise in the round-trip theorem; known "
-             "findings param-backslash-before-next-param and "
-             "text-field-multibyte-at-64k-cut.",
+             "finding text-field-multibyte-at-64k-cut.",
         technique="Coq proof (induction over reader lines with a three-phase "
                   "invariant) + vm_compute correspondence"),
     "C09": dict(
